@@ -57,9 +57,12 @@ func tierParams(tier string) (maxLen, sampled int) {
 	return 3, 150
 }
 
+// prelude puts the interceptor into the fully bound, running state before the sequence proper.
+var prelude = []string{"W", "R", "L0", "M0", "T"}
+
 func cases(tier string) int {
 	maxLen, sampled := tierParams(tier)
-	return len(zoo.All) * (nExhaustive(maxLen) + sampled)
+	return len(zoo.All) * (2*nExhaustive(maxLen) + sampled)
 }
 
 func TestCheck(t *testing.T) {
@@ -72,6 +75,13 @@ func sequenceFor(c *vf.Case) (zoo.Kind, []string) {
 	kind := zoo.All[c.Idx%len(zoo.All)]
 	k := c.Idx / len(zoo.All)
 	nEx := nExhaustive(maxLen)
+	withPrelude := false
+	if k >= nEx && k < 2*nEx {
+		k -= nEx
+		withPrelude = true
+	} else if k >= 2*nEx {
+		k = nEx // sampled (below)
+	}
 	if k < nEx {
 		p := 1
 		for l := 1; l <= maxLen; l++ {
@@ -81,6 +91,9 @@ func sequenceFor(c *vf.Case) (zoo.Kind, []string) {
 				for i := l - 1; i >= 0; i-- {
 					seq[i] = alphabet[k%len(alphabet)]
 					k /= len(alphabet)
+				}
+				if withPrelude {
+					seq = append(append([]string{}, prelude...), seq...)
 				}
 				return kind, seq
 			}
@@ -509,6 +522,15 @@ func (rn *run11) traffic() {
 			}
 			continue
 		}
+		if rn.wBound {
+			// the interceptor is open and its RTCP writer is bound (its loop is running): a read or
+			// write must not block; only traffic before BindRTCPWriter may wait for the loop to start
+			rn.advance(time.Hour)
+			if !p.Finished() {
+				rn.c.Violation(fmt.Sprintf("blocked-while-running/%s/%s", rn.kind, p.What),
+					"sequence %v, op #%d: a %s on the open, running interceptor is still blocked after quiescence and one virtual hour", rn.seq, rn.pos, p.What)
+			}
+		}
 		rn.c.Add("traffic_calls_blocked_before_close", 1)
 		rn.pendingBeforeClose = append(rn.pendingBeforeClose, p)
 	}
@@ -683,10 +705,12 @@ func (rn *run11) checkAfterUnbind(s *stream, until int64) {
 		if ev.Stamp <= s.unbindStamp || ev.Stamp > until {
 			continue
 		}
+		// one RTCP write = one emission ("one already in flight"), however many packets it batches
 		for _, p := range ev.Pkts {
 			if about(p, s.opts.SSRC, s.local) {
 				n++
 				typ = fmt.Sprintf("%T", p)
+				break
 			}
 		}
 	}
@@ -697,7 +721,7 @@ func (rn *run11) checkAfterUnbind(s *stream, until int64) {
 			side = "local"
 		}
 		rn.c.Violation(fmt.Sprintf("feedback-after-unbind/%s/%s/%s", rn.kind, side, strings.TrimPrefix(typ, "*rtcp.")),
-			"sequence %v: %d RTCP packets about SSRC %d were written after its Unbind had returned (last: %s)", rn.seq, n, s.opts.SSRC, typ)
+			"sequence %v: %d RTCP writes about SSRC %d were made after its Unbind had returned (last: %s)", rn.seq, n, s.opts.SSRC, typ)
 	}
 }
 
